@@ -12,7 +12,7 @@ func init() {
 	probeNames["C14"] = []string{"grow", "shrink", "to_unbounded", "from_unbounded", "equal", "below_usage", "prealloc", "wal_mapping_live", "free_region_at_end", "release_regions_tx", "crash_image_in_reopen", "later_plain_open", "commit_ok", "out_of_memory", "overflow_pages_at_size_change", "second_size_change", "run_truncated_at_deadline"}
 	register(&PropDef{
 		ID: "C14", Level: "exploration", QuickSec: 50, ThoroSec: 900,
-		Rule: "each run = seeded prior txops history (live WAL overwrite mappings, free regions at the file end), then Close and Open with FlagUpdMaxSize for a drawn (old max, new max, prealloc) combination: old in {unbounded, 64KiB..512KiB} x new in {unbounded, smaller, equal, larger, below current usage}, then a further history, then a plain open. Oracles: model check right after the open (root and every live page), lock state idle and Begin/BeginReadonly return (scheduler deadlock detection), growing a bounded file makes exactly newMaxPages-oldMaxPages more pages allocatable (capacity probe), after shrinking the simulated file never extends beyond max(extent before, new limit), the file keeps working, a later plain open reports the new limit; crash images at every I/O boundary inside the size-changing open recover all contents with the old or the new limit. Non-trivial = the open actually changed the limit; distinct = op list + (old,new,prealloc) + schedule hash.",
+		Rule: "each run = seeded prior txops history (live WAL overwrite mappings, free regions at the file end; a quarter of the bounded runs with the overflow area enabled and the file filled up, so that metadata sits past the limit; those runs have no extent oracle and end early if their crash-image enumeration is cut by the batch deadline), then Close and Open with FlagUpdMaxSize for a drawn (old max, new max, prealloc) combination: old in {unbounded, 64KiB..512KiB} x new in {unbounded, smaller, equal, larger, below current usage}, then a further history, then a plain open. Oracles: model check right after the open (root and every live page), lock state idle and Begin/BeginReadonly return (scheduler deadlock detection), growing a bounded file makes exactly newMaxPages-oldMaxPages more pages allocatable (capacity probe), after shrinking the simulated file never extends beyond max(extent before, new limit), the file keeps working, a later plain open reports the new limit; crash images at every I/O boundary inside the size-changing open recover all contents with the old or the new limit. Non-trivial = the open actually changed the limit; distinct = op list + (old,new,prealloc) + schedule hash.",
 		Real: defaultReal, Stub: defaultStub, Assume: defaultAssume,
 		FaultKinds: []string{"crash at every I/O boundary of the size-changing open", "lost un-synced writes"},
 		Body: c14Body,
